@@ -112,10 +112,20 @@ def mc_task(logic, n, ftxts, opts=None):
     states = opts.get('states')
     mcmod = importlib.import_module('pyModelChecking.%s.model_checking' % logic)
     out = []
+    import signal
+
+    class _Limit(Exception):
+        pass
+
+    def _alarm(*a):
+        raise _Limit()
     for ftxt in ftxts:
         see.reset()
         t0 = time.time()
-        rec = dict(formula=ftxt, logic=logic, n=n, perm=perm, fold=fold, fixed=fixed)
+        rec = dict(formula=ftxt, logic=logic, n=n, perm=perm, fold=fold, fixed=fixed, auxiliary=bool(opts.get('auxiliary')))
+        if opts.get('time_limit'):
+            signal.signal(signal.SIGALRM, _alarm)
+            signal.alarm(int(opts['time_limit']))
         try:
             f = parse(logic, ftxt)
             fstr0 = str(f)
@@ -292,6 +302,11 @@ def mc_task(logic, n, ftxts, opts=None):
             d.close()
         except see.Unsupported as e:
             rec.update(verdict='unsupported', error='Unsupported: %s at %s' % (e, see.TRACE[-3:]))
+        except _Limit:
+            rec.update(verdict='unsupported', error='time limit of %ss for this run exceeded' % opts.get('time_limit'))
+        finally:
+            if opts.get('time_limit'):
+                signal.alarm(0)
         out.append(rec)
     return out
 
